@@ -101,7 +101,7 @@ def render_items(items):
     lines = []
     for it in items:
         k = it["k"]
-        lines.append({"tok": "x", "incbad": "include 7", "incend": "include // end"}.get(k) or 'include "%s"' % it["f"])
+        lines.append({"tok": "x", "str": '"q"', "incbad": "include 7", "incend": "include // end"}.get(k) or 'include "%s"' % it["f"])
     return "\n".join(lines) + ("\n" if lines and items[-1]["k"] != "incend" else "")
 
 
@@ -111,7 +111,26 @@ def _seq(x):
     return list(x or [])
 
 
-def compare_include(chk, th, cases, what, compile_th=None, compile_every=25):
+RENAMES = [{}, {"z": ""}, {"a": "Ab", "b": "aB", "c": "AB", "z": "ab"},
+           {"a": "a/file/with/a/long/path/like/name.theo", "b": "b/file/with/a/long/path/like/name.theo", "z": "a/file/with/a/long/path/like/name.the"}]
+
+
+def rename_case(c, mp):
+    """file names are arbitrary keys: the same configuration under other names (empty absent name, names differing in case only, long names)"""
+    if not mp:
+        return c
+    g = lambda x: mp.get(x, x)
+
+    def item(it):
+        return dict(it, f=g(it["f"])) if "f" in it else it
+    return {"fs": {g(f): [item(it) for it in _seq(items)] for f, items in c["fs"].items()}, "main": g(c["main"]),
+            "out": [dict(o, f=g(o["f"])) for o in _seq(c["out"])], "errs": [dict(e, f=g(e["f"])) for e in _seq(c["errs"])],
+            "reqs": [g(x) for x in _seq(c["reqs"])]}
+
+
+def compare_include(chk, th, cases, what, compile_th=None, compile_every=25, rename=False):
+    if rename:
+        cases = [rename_case(c, RENAMES[i % len(RENAMES)]) for i, c in enumerate(cases)]
     inputs = []
     for i, c in enumerate(cases):
         files = {f: render_items(_seq(items)) for f, items in c["fs"].items()}
@@ -131,7 +150,7 @@ def compare_include(chk, th, cases, what, compile_th=None, compile_every=25):
         if r is None:
             continue
         n += 1
-        exp_toks = [(1, o["f"], o["l"]) for o in _seq(c["out"])]
+        exp_toks = [(KIND["FNAME"] if o.get("k") == "str" else 1, o["f"], o["l"]) for o in _seq(c["out"])]
         act, eof_ok, files = real_tokens(r)
         act_toks = [(k, f, l) for (k, _, l), f in zip(act, files)]
         exp_errs = sorted((ERR[e["t"]], e["f"], e["l"]) for e in _seq(c["errs"]))
